@@ -85,6 +85,12 @@ Proofs/Heap.vos Proofs/Heap.vok Proofs/Heap.required_vos: Proofs/Heap.v Base/Bas
 Proofs/Depth.vo Proofs/Depth.glob Proofs/Depth.v.beautified Proofs/Depth.required_vo: Proofs/Depth.v Base/Base.vo Model/Reader.vo Model/Printer.vo Model/Store.vo Model/Eval.vo
 Proofs/Depth.vio: Proofs/Depth.v Base/Base.vio Model/Reader.vio Model/Printer.vio Model/Store.vio Model/Eval.vio
 Proofs/Depth.vos Proofs/Depth.vok Proofs/Depth.required_vos: Proofs/Depth.v Base/Base.vos Model/Reader.vos Model/Printer.vos Model/Store.vos Model/Eval.vos
+Proofs/Hidden.vo Proofs/Hidden.glob Proofs/Hidden.v.beautified Proofs/Hidden.required_vo: Proofs/Hidden.v Base/Base.vo Model/Reader.vo Model/Printer.vo Model/Store.vo Model/Eval.vo Proofs/ReaderTotal.vo Proofs/EvalRel.vo Proofs/Lists.vo Proofs/Backquote.vo Proofs/Closures.vo Proofs/Capture.vo Proofs/Cont.vo
+Proofs/Hidden.vio: Proofs/Hidden.v Base/Base.vio Model/Reader.vio Model/Printer.vio Model/Store.vio Model/Eval.vio Proofs/ReaderTotal.vio Proofs/EvalRel.vio Proofs/Lists.vio Proofs/Backquote.vio Proofs/Closures.vio Proofs/Capture.vio Proofs/Cont.vio
+Proofs/Hidden.vos Proofs/Hidden.vok Proofs/Hidden.required_vos: Proofs/Hidden.v Base/Base.vos Model/Reader.vos Model/Printer.vos Model/Store.vos Model/Eval.vos Proofs/ReaderTotal.vos Proofs/EvalRel.vos Proofs/Lists.vos Proofs/Backquote.vos Proofs/Closures.vos Proofs/Capture.vos Proofs/Cont.vos
+Proofs/Tramp.vo Proofs/Tramp.glob Proofs/Tramp.v.beautified Proofs/Tramp.required_vo: Proofs/Tramp.v Base/Base.vo Model/Reader.vo Model/Printer.vo Model/Store.vo Model/Eval.vo Proofs/ReaderTotal.vo Proofs/EvalRel.vo Proofs/Hidden.vo
+Proofs/Tramp.vio: Proofs/Tramp.v Base/Base.vio Model/Reader.vio Model/Printer.vio Model/Store.vio Model/Eval.vio Proofs/ReaderTotal.vio Proofs/EvalRel.vio Proofs/Hidden.vio
+Proofs/Tramp.vos Proofs/Tramp.vok Proofs/Tramp.required_vos: Proofs/Tramp.v Base/Base.vos Model/Reader.vos Model/Printer.vos Model/Store.vos Model/Eval.vos Proofs/ReaderTotal.vos Proofs/EvalRel.vos Proofs/Hidden.vos
 Props/C01.vo Props/C01.glob Props/C01.v.beautified Props/C01.required_vo: Props/C01.v Base/Base.vo Model/Reader.vo Model/Printer.vo Model/Store.vo Model/Eval.vo Model/Init.vo Proofs/EvalRel.vo Proofs/Cont.vo Proofs/CoreRefine.vo Spec/CoreSem.vo
 Props/C01.vio: Props/C01.v Base/Base.vio Model/Reader.vio Model/Printer.vio Model/Store.vio Model/Eval.vio Model/Init.vio Proofs/EvalRel.vio Proofs/Cont.vio Proofs/CoreRefine.vio Spec/CoreSem.vio
 Props/C01.vos Props/C01.vok Props/C01.required_vos: Props/C01.v Base/Base.vos Model/Reader.vos Model/Printer.vos Model/Store.vos Model/Eval.vos Model/Init.vos Proofs/EvalRel.vos Proofs/Cont.vos Proofs/CoreRefine.vos Spec/CoreSem.vos
@@ -94,9 +100,9 @@ Props/C02.vos Props/C02.vok Props/C02.required_vos: Props/C02.v Base/Base.vos Mo
 Props/C03.vo Props/C03.glob Props/C03.v.beautified Props/C03.required_vo: Props/C03.v Base/Base.vo Model/Reader.vo Model/Printer.vo Model/Store.vo Model/Eval.vo Model/Init.vo Proofs/EvalRel.vo
 Props/C03.vio: Props/C03.v Base/Base.vio Model/Reader.vio Model/Printer.vio Model/Store.vio Model/Eval.vio Model/Init.vio Proofs/EvalRel.vio
 Props/C03.vos Props/C03.vok Props/C03.required_vos: Props/C03.v Base/Base.vos Model/Reader.vos Model/Printer.vos Model/Store.vos Model/Eval.vos Model/Init.vos Proofs/EvalRel.vos
-Props/C04.vo Props/C04.glob Props/C04.v.beautified Props/C04.required_vo: Props/C04.v Base/Base.vo Model/Reader.vo Model/Printer.vo Model/Store.vo Model/Eval.vo Model/Init.vo Proofs/EvalRel.vo Proofs/TailCalls.vo Proofs/Calls.vo
-Props/C04.vio: Props/C04.v Base/Base.vio Model/Reader.vio Model/Printer.vio Model/Store.vio Model/Eval.vio Model/Init.vio Proofs/EvalRel.vio Proofs/TailCalls.vio Proofs/Calls.vio
-Props/C04.vos Props/C04.vok Props/C04.required_vos: Props/C04.v Base/Base.vos Model/Reader.vos Model/Printer.vos Model/Store.vos Model/Eval.vos Model/Init.vos Proofs/EvalRel.vos Proofs/TailCalls.vos Proofs/Calls.vos
+Props/C04.vo Props/C04.glob Props/C04.v.beautified Props/C04.required_vo: Props/C04.v Base/Base.vo Model/Reader.vo Model/Printer.vo Model/Store.vo Model/Eval.vo Model/Init.vo Proofs/EvalRel.vo Proofs/TailCalls.vo Proofs/Calls.vo Proofs/Hidden.vo Proofs/Tramp.vo
+Props/C04.vio: Props/C04.v Base/Base.vio Model/Reader.vio Model/Printer.vio Model/Store.vio Model/Eval.vio Model/Init.vio Proofs/EvalRel.vio Proofs/TailCalls.vio Proofs/Calls.vio Proofs/Hidden.vio Proofs/Tramp.vio
+Props/C04.vos Props/C04.vok Props/C04.required_vos: Props/C04.v Base/Base.vos Model/Reader.vos Model/Printer.vos Model/Store.vos Model/Eval.vos Model/Init.vos Proofs/EvalRel.vos Proofs/TailCalls.vos Proofs/Calls.vos Proofs/Hidden.vos Proofs/Tramp.vos
 Props/C05.vo Props/C05.glob Props/C05.v.beautified Props/C05.required_vo: Props/C05.v Base/Base.vo Model/Reader.vo Model/Printer.vo Model/Store.vo Model/Eval.vo Model/Init.vo Proofs/Closures.vo Proofs/Capture.vo Proofs/EvalRel.vo
 Props/C05.vio: Props/C05.v Base/Base.vio Model/Reader.vio Model/Printer.vio Model/Store.vio Model/Eval.vio Model/Init.vio Proofs/Closures.vio Proofs/Capture.vio Proofs/EvalRel.vio
 Props/C05.vos Props/C05.vok Props/C05.required_vos: Props/C05.v Base/Base.vos Model/Reader.vos Model/Printer.vos Model/Store.vos Model/Eval.vos Model/Init.vos Proofs/Closures.vos Proofs/Capture.vos Proofs/EvalRel.vos
